@@ -24,6 +24,9 @@ type bfEnv struct {
 	// continueAs, when set, gives the value a `continue` stands for when the interpreted statements are the body of
 	// a search loop ("this element does not qualify")
 	continueAs *tri
+	// inline, when set, resolves a call to the body of a function whose result the decision delegates to
+	inline func(call *ast.CallExpr) (*ast.BlockStmt, *types.Info)
+	depth  int
 }
 
 type bfOutcome struct {
@@ -62,6 +65,17 @@ func (e *bfEnv) eval(x ast.Expr) tri {
 	}
 	if v, ok := e.atom(x); ok {
 		return v
+	}
+	// a predicate moved into a helper of the package: evaluate the helper's body under the same atoms (the atoms are
+	// recognised by what they call, so the helper's parameter names do not matter); bounded depth
+	if call, ok := x.(*ast.CallExpr); ok && e.inline != nil && e.depth < 3 {
+		if body, info := e.inline(call); body != nil {
+			sub := &bfEnv{info: info, atom: e.atom, lookup: e.lookup, store: e.store, locals: map[types.Object]tri{}, inline: e.inline, depth: e.depth + 1}
+			var out bfOutcome
+			if sub.run(body.List, &out) && out.Undecided == "" && out.Returned {
+				return out.Value
+			}
+		}
 	}
 	return triUnknown
 }
@@ -230,7 +244,7 @@ func bodyHasFallthrough(stmts []ast.Stmt) bool {
 
 // bfEvalFunc evaluates body under one assignment.
 func bfEvalFunc(info *types.Info, body *ast.BlockStmt, atom func(ast.Expr) (tri, bool), lookup func(ast.Expr) (tri, bool), store func(ast.Expr) (string, bool)) bfOutcome {
-	e := &bfEnv{info: info, atom: atom, lookup: lookup, store: store, locals: map[types.Object]tri{}}
+	e := &bfEnv{info: info, atom: atom, lookup: lookup, store: store, locals: map[types.Object]tri{}, inline: bfInline}
 	var out bfOutcome
 	if !e.run(body.List, &out) && out.Undecided == "" {
 		out.Undecided = "function falls off its end without returning"
@@ -240,7 +254,7 @@ func bfEvalFunc(info *types.Info, body *ast.BlockStmt, atom func(ast.Expr) (tri,
 
 // bfEvalLoopBody evaluates the body of a search loop under one assignment: `continue` yields notQualified.
 func bfEvalLoopBody(info *types.Info, body *ast.BlockStmt, notQualified tri, atom func(ast.Expr) (tri, bool)) bfOutcome {
-	e := &bfEnv{info: info, atom: atom, lookup: func(ast.Expr) (tri, bool) { return triUnknown, false }, store: func(ast.Expr) (string, bool) { return "", false }, locals: map[types.Object]tri{}, continueAs: &notQualified}
+	e := &bfEnv{info: info, atom: atom, lookup: func(ast.Expr) (tri, bool) { return triUnknown, false }, store: func(ast.Expr) (string, bool) { return "", false }, locals: map[types.Object]tri{}, continueAs: &notQualified, inline: bfInline}
 	var out bfOutcome
 	if !e.run(body.List, &out) && out.Undecided == "" {
 		// falling off the end of a loop body is the same as continue
@@ -248,3 +262,7 @@ func bfEvalLoopBody(info *types.Info, body *ast.BlockStmt, notQualified tri, ato
 	}
 	return out
 }
+
+// bfInline is the resolver used by the evaluators; rules that want helper bodies followed set it for the duration of
+// their evaluation (nil: calls that are not atoms stay undecided).
+var bfInline func(call *ast.CallExpr) (*ast.BlockStmt, *types.Info)
